@@ -31,13 +31,13 @@ import (
 
 // Item of a block body. K: write | read | child | save | rbto.
 type Item struct {
-	K   string `json:"k"`
-	M   int64  `json:"m,omitempty"`   // write: marker; save/rbto: save-point name id
-	Chk bool   `json:"chk,omitempty"` // write/read: return the statement's error; child: return the child's error
+	K     string `json:"k"`
+	M     int64  `json:"m,omitempty"`     // write: marker; save/rbto: save-point name id
+	Chk   bool   `json:"chk,omitempty"`   // write/read: return the statement's error; child: return the child's error
 	Via   string `json:"via,omitempty"`   // write: "" tx.Create(&row) | "exec" tx.Exec("INSERT ..") | "kept" through ONE chained handle h := tx.Model(&Marker{}) kept by the block body and reused for all its kept writes | write and read: "sess" tx.Session(&Session{}) | "sess_prep" tx.Session(&Session{PrepareStmt: true}) | "ctx" tx.WithContext(ctx): a handle derived from the block's handle for this one call
 	Empty bool   `json:"empty,omitempty"` // kept write: when it creates the handle, its first use is an update with an empty change set (no SQL)
-	Rcv bool   `json:"rcv,omitempty"` // child: the call is wrapped in a recover(); a panic of the child is swallowed
-	B   *Blk   `json:"b,omitempty"`   // child
+	Rcv   bool   `json:"rcv,omitempty"`   // child: the call is wrapped in a recover(); a panic of the child is swallowed
+	B     *Blk   `json:"b,omitempty"`     // child
 }
 
 // Blk is a block body: items, then the scripted outcome (nil | err | panic, with a sentinel id).
@@ -62,6 +62,7 @@ type Input struct {
 	Top   string   `json:"top"` // block: db.Transaction(body) ; manual: tx := db.Begin(); body; tx.Commit()/tx.Rollback()
 	Body  Blk      `json:"body"`
 	Extra []string `json:"extra,omitempty"` // manual only: further commit/rollback calls after the end
+	Conn  bool     `json:"conn,omitempty"`  // the program runs inside db.Connection(func(c *gorm.DB) error {...}) on the dedicated-connection handle c
 	Opts  bool     `json:"opts,omitempty"`  // Transaction(fc, &sql.TxOptions{}) / Begin(&sql.TxOptions{})
 	Stray []string `json:"stray,omitempty"` // before the program: commit/rollback called on a handle that is NOT in a transaction (a session copy of the pool handle)
 	Cfg   Cfg      `json:"cfg"`
@@ -97,16 +98,16 @@ type Op struct {
 }
 
 type Observed struct {
-	Log     []Obs   `json:"log"`
-	Entered bool    `json:"entered"`
-	Exit    Cls     `json:"exit"`
-	Ret     Cls     `json:"ret"`
-	Extra   []Cls   `json:"extra,omitempty"`
-	Stray   []Cls   `json:"stray,omitempty"`
-	Table   []int64 `json:"table"`
-	InUse   int64   `json:"in_use"`
-	OpenTx  int64   `json:"open_tx"`
-	Ops     []Op    `json:"ops"`
+	Log     []Obs    `json:"log"`
+	Entered bool     `json:"entered"`
+	Exit    Cls      `json:"exit"`
+	Ret     Cls      `json:"ret"`
+	Extra   []Cls    `json:"extra,omitempty"`
+	Stray   []Cls    `json:"stray,omitempty"`
+	Table   []int64  `json:"table"`
+	InUse   int64    `json:"in_use"`
+	OpenTx  int64    `json:"open_tx"`
+	Ops     []Op     `json:"ops"`
 	Notes   []string `json:"notes,omitempty"`
 }
 
@@ -132,18 +133,20 @@ func (d reporting) RollbackTo(tx *gorm.DB, name string) error {
 // SavePointerDialectorInterface (a dialect without save points).
 type noSavePoints struct{ d gorm.Dialector }
 
-func (n noSavePoints) Name() string                        { return n.d.Name() }
-func (n noSavePoints) Initialize(db *gorm.DB) error         { return n.d.Initialize(db) }
-func (n noSavePoints) Migrator(db *gorm.DB) gorm.Migrator   { return n.d.Migrator(db) }
-func (n noSavePoints) DataTypeOf(f *schema.Field) string    { return n.d.DataTypeOf(f) }
+func (n noSavePoints) Name() string                       { return n.d.Name() }
+func (n noSavePoints) Initialize(db *gorm.DB) error       { return n.d.Initialize(db) }
+func (n noSavePoints) Migrator(db *gorm.DB) gorm.Migrator { return n.d.Migrator(db) }
+func (n noSavePoints) DataTypeOf(f *schema.Field) string  { return n.d.DataTypeOf(f) }
 func (n noSavePoints) DefaultValueOf(f *schema.Field) clause.Expression {
 	return n.d.DefaultValueOf(f)
 }
 func (n noSavePoints) BindVarTo(w clause.Writer, stmt *gorm.Statement, v interface{}) {
 	n.d.BindVarTo(w, stmt, v)
 }
-func (n noSavePoints) QuoteTo(w clause.Writer, s string)             { n.d.QuoteTo(w, s) }
-func (n noSavePoints) Explain(sql string, vars ...interface{}) string { return n.d.Explain(sql, vars...) }
+func (n noSavePoints) QuoteTo(w clause.Writer, s string) { n.d.QuoteTo(w, s) }
+func (n noSavePoints) Explain(sql string, vars ...interface{}) string {
+	return n.d.Explain(sql, vars...)
+}
 
 type env struct {
 	db    *gorm.DB
@@ -435,28 +438,50 @@ func run(in Input) Observed {
 				}
 			}
 		}()
-		for _, x := range in.Stray { // Commit / Rollback on a handle that is not in a transaction
-			h := e.db.Session(&gorm.Session{})
-			if x == "commit" {
-				obs.Stray = append(obs.Stray, classify(h.Commit().Error))
-			} else {
-				obs.Stray = append(obs.Stray, classify(h.Rollback().Error))
+		program := func(root *gorm.DB) {
+			for _, x := range in.Stray { // Commit / Rollback on a handle that is not in a transaction
+				h := root.Session(&gorm.Session{})
+				if x == "commit" {
+					obs.Stray = append(obs.Stray, classify(h.Commit().Error))
+				} else {
+					obs.Stray = append(obs.Stray, classify(h.Rollback().Error))
+				}
 			}
-		}
-		var opts []*sql.TxOptions
-		if in.Opts {
-			opts = []*sql.TxOptions{{}}
-		}
-		if in.Top == "block" {
-			err := e.db.Transaction(func(tx *gorm.DB) error { return r.fc(tx, &in.Body, &top) }, opts...)
-			obs.Ret = classify(err)
-			return
-		}
-		// manual: the documented Begin / defer-rollback-on-panic / Rollback-on-error / Commit pattern
-		tx := e.db.Begin(opts...)
-		if tx.Error != nil {
-			// the idiomatic cleanup (defer tx.Rollback(), or Commit) on the handle of a failed Begin
-			obs.Ret = classify(tx.Error)
+			var opts []*sql.TxOptions
+			if in.Opts {
+				opts = []*sql.TxOptions{{}}
+			}
+			if in.Top == "block" {
+				err := root.Transaction(func(tx *gorm.DB) error { return r.fc(tx, &in.Body, &top) }, opts...)
+				obs.Ret = classify(err)
+				return
+			}
+			// manual: the documented Begin / defer-rollback-on-panic / Rollback-on-error / Commit pattern
+			tx := root.Begin(opts...)
+			if tx.Error != nil {
+				// the idiomatic cleanup (defer tx.Rollback(), or Commit) on the handle of a failed Begin
+				obs.Ret = classify(tx.Error)
+				for _, x := range in.Extra {
+					if x == "commit" {
+						obs.Extra = append(obs.Extra, classify(tx.Commit().Error))
+					} else {
+						obs.Extra = append(obs.Extra, classify(tx.Rollback().Error))
+					}
+				}
+				return
+			}
+			defer func() {
+				if p := recover(); p != nil {
+					tx.Rollback()
+					panic(p)
+				}
+			}()
+			if err := r.fc(tx, &in.Body, &top); err != nil {
+				tx.Rollback()
+				obs.Ret = classify(err)
+			} else {
+				obs.Ret = classify(tx.Commit().Error)
+			}
 			for _, x := range in.Extra {
 				if x == "commit" {
 					obs.Extra = append(obs.Extra, classify(tx.Commit().Error))
@@ -464,26 +489,14 @@ func run(in Input) Observed {
 					obs.Extra = append(obs.Extra, classify(tx.Rollback().Error))
 				}
 			}
-			return
 		}
-		defer func() {
-			if p := recover(); p != nil {
-				tx.Rollback()
-				panic(p)
+		if in.Conn {
+			// the whole program on ONE dedicated connection: db.Connection(func(c) { ... c.Transaction(...) ... })
+			if cerr := e.db.Connection(func(c *gorm.DB) error { program(c); return nil }); cerr != nil {
+				r.notes = append(r.notes, "Connection: "+cerr.Error())
 			}
-		}()
-		if err := r.fc(tx, &in.Body, &top); err != nil {
-			tx.Rollback()
-			obs.Ret = classify(err)
 		} else {
-			obs.Ret = classify(tx.Commit().Error)
-		}
-		for _, x := range in.Extra {
-			if x == "commit" {
-				obs.Extra = append(obs.Extra, classify(tx.Commit().Error))
-			} else {
-				obs.Extra = append(obs.Extra, classify(tx.Rollback().Error))
-			}
+			program(e.db)
 		}
 	}()
 	e.rec.Fault = nil
@@ -753,7 +766,7 @@ func shapeBlk(b *Blk, sb *strings.Builder) {
 
 func shape(in Input, o Observed) string {
 	var sb strings.Builder
-	fmt.Fprintf(&sb, "%s|p%v n%v s%v r%v %s o%v %v|", in.Top, in.Cfg.Prep, in.Cfg.NoNest, in.Cfg.SkipDef, in.Cfg.Report, in.Cfg.Via+fmt.Sprint(in.Cfg.NoSP), in.Opts, in.Stray)
+	fmt.Fprintf(&sb, "%s|p%v n%v s%v r%v %s o%v %v|", in.Top, in.Cfg.Prep, in.Cfg.NoNest, in.Cfg.SkipDef, in.Cfg.Report, in.Cfg.Via+fmt.Sprint(in.Cfg.NoSP, in.Conn), in.Opts, in.Stray)
 	shapeBlk(&in.Body, &sb)
 	fk := "none"
 	if in.Fault >= 0 && in.Fault < len(o.Ops) {
@@ -781,7 +794,6 @@ func sig(in Input, o Observed) string {
 	}
 	return ""
 }
-
 
 // small trees for the exhaustive sweep: every block has at most one write before and one after
 // at most one child; all outcome assignments; both "return the child's error" choices.
@@ -894,6 +906,7 @@ func main() {
 		out.Count("config", fmt.Sprintf("prep=%v nonest=%v skipdef=%v report=%v", in.Cfg.Prep, in.Cfg.NoNest, in.Cfg.SkipDef, in.Cfg.Report))
 		out.Count("config_via", "via="+in.Cfg.Via)
 		out.Count("savepoints", fmt.Sprint(!in.Cfg.NoSP))
+		out.Count("dedicated_connection", fmt.Sprint(in.Conn))
 		out.Count("durable", fmt.Sprint(len(o.Table)))
 		out.Count("driver_ops", fmt.Sprint(len(o.Ops)))
 		for _, n := range o.Notes {
@@ -971,6 +984,7 @@ func main() {
 					in.Top = "manual"
 					in.Extra = [][]string{{"rollback"}, {"commit"}, nil}[ti%3]
 				}
+				in.Conn = (ti+2*ci)%7 == 3
 				free := add("sweep", in)
 				for k := range free.Ops {
 					ph := "exec"
@@ -1005,6 +1019,7 @@ func main() {
 			in.Cfg.NoSP, in.Cfg.Report = true, true
 		}
 		in.Opts = r.Chance(1, 4)
+		in.Conn = r.Chance(1, 5)
 		if r.Chance(1, 6) {
 			for k := r.Range(1, 2); k > 0; k-- {
 				in.Stray = append(in.Stray, lib.Pick(r, []string{"commit", "rollback"}))
